@@ -4,23 +4,29 @@
    buffer.go, reader.go, database.go); each is closed by [exact] of a lemma of
    PathDB/LayersProofs.v.
 
-   PROVED: the layer-tree invariant [Inv] holds initially and is preserved by every
-   successful operation of the model -- add, cap (full commit and flattening, the
-   latter USING the sibling re-link of /repo d78fb6c457), Commit, Update, flush --
-   so it holds after every history; in every such state a lookup-based account /
-   storage read and a trie-node read at any live root return exactly the value of
-   the parent-chain fold [sem] (never an error), and a read at a dropped root is an
-   error.
-   STILL MISSING (hence ..._partial on the history theorem):
-   (a) histories are those in which every operation succeeds or is rejected leaving
-       the database untouched ([reach]); it is not proved that the internal error
-       classes (EFlush / ENotFrozen flush errors, EFuel, EBadRef) and panics cannot
-       occur, so histories in which an operation fails half-way are not covered;
+   PROVED (all histories, no hypothesis on the history): from the initial database of
+   any configuration with the sibling re-link of /repo d78fb6c457, NO history of
+   Update / cap / Commit / flush operations panics or fails half-way -- every
+   operation either succeeds or is rejected (cycle, missing parent, missing layer,
+   disk layer) leaving the database untouched (C16_no_internal_error, by the buffer
+   invariant BI: live buffer not frozen and error-free, persistent state id + layers
+   of the frozen and live buffers = the disk layer's state id; state ids of diff
+   layers consecutive; enough fuel) -- and in the state reached, at every live root,
+   every account / slot read via the lookup index and every trie-node read returns
+   exactly the parent-chain fold [sem], never an error (C16_read_correct); a read at
+   a dropped root is an error in every state.
+   ENVIRONMENT FAILURES: the model has no environment oracle -- key-value batch
+   writes, freezer writes / syncs and history truncation always succeed (freezers are
+   nil), so buffer.flushErr can only come from the state-id check, which BI
+   discharges.  Histories with a failing write are therefore EXCLUDED from the model
+   (not covered by any statement here); in the Go code such a failure surfaces as the
+   error of Commit/Update and leaves the old disk layer stale.
+   STILL MISSING:
    (b) cap_preserves_sem (the VALUE of sem at a surviving root is unchanged by a
        flatten / flush, i.e. the buffer merge and flush write the right content) is
        not proved -- supported only by the correspondence runs (Go reference oracle);
    (c) concurrency (read_during_cap) is not modelled. *)
-From GV Require Import Lib.Tactics PathDB.Lookup PathDB.Layers PathDB.LayersProofs PathDB.LayersInv.
+From GV Require Import Lib.Tactics PathDB.Lookup PathDB.Layers PathDB.LayersProofs PathDB.LayersInv PathDB.LayersOk.
 Local Open Scope N_scope.
 
 (* the lookup tip is the nearest modifier: if the entries of a key's history list
@@ -70,14 +76,30 @@ Theorem C16_inv_preserved : forall s o s',
 Proof. exact step_inv. Qed.
 Print Assumptions C16_inv_preserved.
 
-(* ALL histories (see (a) above for the class of histories): at every live root,
-   every account / slot read and every trie-node read returns exactly sem *)
-Theorem C16_read_correct_partial : forall c h s root,
-  c_relink c = true -> reach (init_db c) h s -> In root (live_roots s) ->
-  (forall k, exists v, sem_state s root k = Ok v /\ read_state s root k = Ok v) /\
-  (forall k, exists v, sem_node s root k = Ok v /\ read_node s root k = Ok v).
-Proof. exact read_correct_all. Qed.
-Print Assumptions C16_read_correct_partial.
+(* no operation fails half-way: from a database satisfying the full invariant
+   (layer tree + buffers + state ids) every operation succeeds and re-establishes it,
+   or is rejected with an error leaving the database exactly as it was *)
+Theorem C16_no_internal_error : forall s o,
+  Inv3 s ->
+  (exists s', step s o = (s', Ok tt) /\ Inv3 s') \/ (exists e, step s o = (s, Err e)).
+Proof. exact step_total. Qed.
+Print Assumptions C16_no_internal_error.
+
+Theorem C16_init_inv3 : forall c, c_relink c = true -> Inv3 (init_db c).
+Proof. exact init_inv3. Qed.
+Print Assumptions C16_init_inv3.
+
+(* ALL histories: [run] never returns None (no panic), and in the state reached
+   every account / slot read and every trie-node read at every live root returns
+   exactly sem *)
+Theorem C16_read_correct : forall c h,
+  c_relink c = true ->
+  exists s, run (init_db c) h = Some s /\
+    forall root, In root (live_roots s) ->
+      (forall k, exists v, sem_state s root k = Ok v /\ read_state s root k = Ok v) /\
+      (forall k, exists v, sem_node s root k = Ok v /\ read_node s root k = Ok v).
+Proof. exact read_correct_run. Qed.
+Print Assumptions C16_read_correct.
 
 (* a read at a root that is not (or no longer) in the tree is an error in every
    state whatsoever -- never another state's data *)
